@@ -512,8 +512,17 @@ def check_indexing(ctx):
         and isinstance(reg[0].value, ast.Name) and reg[0].value.id == A.param_names(es)[1]
     ctx.check("C13.I", "execute_subroutine:registers-under-fresh-id", ok, "execute_subroutine does not register the subroutine under a fresh subroutine id", repo.loc(m, es))
     gid = ex.methods.get("_get_new_subroutine_id")
-    ok = gid is not None and any(isinstance(n, ast.AugAssign) and A.is_self_attr(n.target, "_next_subroutine_id") and isinstance(n.op, ast.Add) for n in A.body_nodes(gid))
-    ctx.check("C13.I", "_get_new_subroutine_id:monotone", ok, "_get_new_subroutine_id does not advance the id counter", repo.loc(m, gid) if gid else "", trivial=True)
+    ok = False
+    if gid is not None:
+        # executed four times on one executor: four different ids
+        from .. import circuit as C
+        try:
+            o_ = C.object_from_init(repo, ex, {}, kind="self")
+            ids_ = [C.Interp(repo, ctx.ev, C.Scenario(), ex).call_function(m, gid, [], {}, self_obj=o_) for _ in range(4)]
+            ok = len(set(ids_)) == 4 and all(isinstance(i_, int) for i_ in ids_)
+        except (AnalysisError, C.EvalRaise):
+            ok = False
+    ctx.check("C13.I", "_get_new_subroutine_id:monotone", ok, "_get_new_subroutine_id does not hand out a new id on every call", repo.loc(m, gid) if gid else "", trivial=True)
 
 
 def check_alloc_guards(ctx, rule="C13.G"):
